@@ -143,7 +143,7 @@ def run(tier, replay=None):
         evaluations=len(cases), distinct_nontrivial=len(cases), outcome_classes=classes,
         illegal_placement_skeletons=sum(1 for c in cases if c["kind"] == "skeleton"),
         expression_context_forms=sum(1 for c in cases if c["kind"] == "form:expr"), import_forms=sum(1 for c in cases if c["kind"] == "form:import"), single_edits_enumerated=n1, single_edits_run=len(ed1), multi_edit_run=len(ed2), derivations_run=len(der), corpus_files=len(srcs),
-        rule="MSGrammar.tla: (a) token-edit machine over the tokenised example corpus: all single delete/duplicate/swap edits (quick: deterministic thinning) and seeded simulations of up to 3 edits incl. replace/insert from a 55-token vocabulary; (b) leftmost derivations of the transcribed grammar with a depth budget (seeded -simulate); (c) the corpus itself; (d) GenCtl skeletons with break / continue / return in illegal places; (e) GenTotal.tla: 95 boundary or ill-formed expressions x 26 syntactic contexts and 19 import path shapes x 4 import forms x 7 placements, exhaustive; distinct by token sequence / text",
+        rule="MSGrammar.tla: (a) token-edit machine over the tokenised example corpus: all single delete/duplicate/swap edits (quick: deterministic thinning) and seeded simulations of up to 3 edits incl. replace/insert from a 55-token vocabulary; (b) leftmost derivations of the transcribed grammar with a depth budget (seeded -simulate); (c) the corpus itself; (d) GenCtl skeletons with break / continue / return in illegal places; (e) GenTotal.tla: 170 boundary or ill-formed expressions (incl. escapes the language does not have, in front of multi-byte characters) and scaling shapes x 31 syntactic contexts, constant arithmetic over 18 boundary operands x 7 operators x 18 operands x 3 contexts, and 19 import path shapes x 4 import forms x 7 placements, exhaustive; distinct by token sequence / text",
         samples=[dict(kind=c["kind"], text=c["text"][:160], outcome=c["obs"]["cls"]) for c in cases[:: max(1, len(cases) // 3)][:3]],
         states=g1.distinct, transitions=g1.generated, slowest_compile_s=round(max(c["obs"]["wall"] for c in cases), 2),
     )
